@@ -163,6 +163,14 @@ class ATuple:
         return ("tuple",) + tuple(vkey(i) for i in self.items)
 
 
+class ARecord(ATuple):
+    """A namedtuple / dataclass instance: a tuple whose positions have names."""
+
+    def __init__(self, items, names):
+        ATuple.__init__(self, items)
+        self.names = list(names)
+
+
 class AList:
     """Abstract list: known items (in order) plus the keys of symbolic domains that fed it."""
 
@@ -665,6 +673,12 @@ def _clone_env(env):
                 memo[id(v)] = n
                 n.items = [clone(x) for x in v.items]
             return memo[id(v)]
+        if isinstance(v, ARecord):
+            if id(v) not in memo:
+                n = ARecord([], v.names)
+                memo[id(v)] = n
+                n.items = [clone(x) for x in v.items]
+            return memo[id(v)]
         if isinstance(v, ADict):
             if id(v) not in memo:
                 n = ADict({}, list(v.doms))
@@ -784,6 +798,7 @@ def merge_states(states, prefix_len):
         for k in s.env:
             if k not in names:
                 names.append(k)
+    merged = {}  # identities of the per-state values -> merged value: names that alias in every state alias afterwards
     for k in names:
         alts = []
         missing = False
@@ -792,6 +807,10 @@ def merge_states(states, prefix_len):
                 missing = True
                 continue
             alts.append((g_and(s.guards[p:]), s.env[k]))
+        ident = tuple(id(s.env[k]) if k in s.env else None for s in states)
+        if not missing and ident in merged and all(isinstance(v, Poly) for _, v in alts):
+            out.env[k] = merged[ident]
+            continue
         if missing:
             if len({_k(vkey(v)) for _, v in alts}) == 1 and len(alts) == len(states):
                 out.env[k] = alts[0][1]
@@ -800,6 +819,8 @@ def merge_states(states, prefix_len):
                 out.env[k] = make_cond(alts)
         else:
             out.env[k] = make_cond(_close(alts))
+        if not missing:
+            merged[ident] = out.env[k]
     return out
 
 
@@ -850,7 +871,12 @@ class Frame:
                 ca = cur.as_atom() if isinstance(cur, Poly) else None
                 if (a is not None and a[0] == "mcall" and ca is not None and a[2] == cur.key() and c.func.attr not in READ_ONLY_METHODS
                         and ca[0] in ("call", "mcall", "upd", "attr", "sub", "elem", "v", "after") and not (ca[0] == "call" and ca[1] == "concat")):
-                    st.env[c.func.value.id] = Poly.atom(("upd",) + a[1:])
+                    new = Poly.atom(("upd",) + a[1:])
+                    # the edit is seen through every other name / attribute bound to the very same object
+                    for k2, v2 in list(st.env.items()):
+                        if v2 is cur and not (isinstance(k2, tuple) and k2 and k2[0] in ("@alias", "@ver")):
+                            st.env[k2] = new
+                    st.env[c.func.value.id] = new
             return [(st, ("fall",))]
         if isinstance(s, ast.Assign):
             v = self.eval(s.value, st)
@@ -1064,6 +1090,9 @@ class Frame:
             return
         if isinstance(target, ast.Attribute):
             base = self.eval(target.value, st)
+            if isinstance(base, ARecord) and target.attr in base.names:
+                base.items[base.names.index(target.attr)] = v
+                return
             ci = self.class_of(base, target.value, st)
             if ci is not None:
                 setter = self.I.prog.prop(ci, target.attr, "setter")
@@ -1219,6 +1248,8 @@ class Frame:
             if root in self.module.imports or root in ("np", "math"):
                 return Poly.atom(("g", full))
         base = self.eval(e.value, st)
+        if isinstance(base, ARecord) and e.attr in base.names:
+            return base.items[base.names.index(e.attr)]
         slot = ("@attr", vkey(base), e.attr)
         if slot in st.env:
             return st.env[slot]
@@ -1410,7 +1441,7 @@ class Frame:
         idx = self.eval_index(e.slice, st)
         if isinstance(e.slice, ast.Slice) and e.slice.lower is None and e.slice.upper is None and isinstance(e.slice.step, ast.UnaryOp) and isinstance(e.slice.step.op, ast.USub) and isinstance(e.slice.step.operand, ast.Constant) and e.slice.step.operand.value == 1:
             if isinstance(base, (AList, ATuple)) and not getattr(base, "doms", None):
-                return type(base)(list(reversed(base.items)))
+                return (AList if isinstance(base, AList) else ATuple)(list(reversed(base.items)))
             return Poly.atom(("call", "reversed", (vkey(base),), ()))
         if isinstance(e.slice, ast.Slice) and isinstance(base, (AList, ATuple)) and not getattr(base, "doms", None):
             # a constant slice of a concrete sequence is a concrete sequence
@@ -1423,7 +1454,7 @@ class Frame:
                 return False, None
             parts = [bound(e.slice.lower), bound(e.slice.upper), bound(e.slice.step)]
             if all(ok for ok, _ in parts) and parts[2][1] != 0:
-                return type(base)(list(base.items[slice(parts[0][1], parts[1][1], parts[2][1])]))
+                return (AList if isinstance(base, AList) else ATuple)(list(base.items[slice(parts[0][1], parts[1][1], parts[2][1])]))
         slot = ("@sub", vkey(base), vkey(idx))
         if slot in st.env:
             return st.env[slot]
@@ -1431,6 +1462,12 @@ class Frame:
             c = idx.const_value()
             if c.denominator == 1 and -len(base.items) <= int(c) < len(base.items):
                 return base.items[int(c)]
+        if isinstance(base, AList) and base.doms and base.items and isinstance(idx, Poly) and idx.is_const() and idx.const_value() == -1:
+            # the last element of a list being grown by a loop is the element appended last
+            last = base.items[-1]
+            la = last.as_atom() if isinstance(last, Poly) else None
+            if not (la is not None and la[0] == "star"):
+                return last
         if isinstance(base, ADict) and vkey(idx) in base.items:
             return base.items[vkey(idx)][1]
         return Poly.atom(("sub", vkey(base), vkey(idx)))
@@ -1661,6 +1698,14 @@ class Frame:
             if dotted == "set":
                 return ASet(list(args[0].items), list(getattr(args[0], "doms", [])))
             return Poly.atom(("call", dotted, tuple(sorted({vkey(i) for i in args[0].items}, key=_k)), ()))
+        if name in ("itertools.islice", "islice") and 2 <= len(args) <= 4 and not kwargs:
+            # islice(x, stop) / islice(x, start, stop[, step]) reads as the slice x[start:stop:step]
+            parts = [None, args[1], None] if len(args) == 2 else ([args[1], args[2], args[3] if len(args) == 4 else None])
+            parts = [None if (p is None or (isinstance(p, Poly) and p.as_atom() == ("const", "None"))) else p for p in parts]
+            if isinstance(args[0], (AList, ATuple)) and not getattr(args[0], "doms", None) and all(p is None or (isinstance(p, Poly) and p.is_const() and p.const_value().denominator == 1) for p in parts):
+                ints = [None if p is None else int(p.const_value()) for p in parts]
+                return AList(list(args[0].items[slice(*ints)]))
+            return Poly.atom(("sub", vkey(args[0]), vkey(Poly.atom(("slice",) + tuple(vkey(p) for p in parts)))))
         if dotted == "set" and not args and not kwargs:
             return ASet()
         if dotted == "list" and not args:
@@ -1686,9 +1731,25 @@ class Frame:
             if fi.cls is not None:
                 nm = fi.cls.name + "." + fi.name
             return self.opaque_call(nm, args, kwargs, st, node)
+        # record types: namedtuple / NamedTuple / dataclass
+        if "." not in dotted:
+            names = self.I.prog.record_fields(dotted, self.module)
+            if names is not None and len(args) + len(kwargs) == len(names) and all(k in names[len(args):] for k in kwargs):
+                return ARecord(list(args) + [kwargs[n] for n in names[len(args):]], names)
         # class constructor?
         ci = self.I.prog.resolve_class(dotted, self.module) if "." not in dotted else None
         if ci is not None:
+            if self.I.prog.is_new_class(ci) and len(self.I.stack) < self.I.max_depth:
+                # a class the specifications cannot know (a small private carrier / builder introduced by a refactoring):
+                # a fresh object whose attributes live in the state, __init__ and methods looked into
+                self.I.obj_serial = getattr(self.I, "obj_serial", 0) + 1
+                obj = Poly.atom(("obj", ci.qualname, self.I.obj_serial))
+                init = self.I.prog.method(ci, "__init__")
+                if init is not None:
+                    self.call_function(init, [obj] + list(args), kwargs, st, node, self_cls=ci)
+                elif args or kwargs:
+                    raise Unsupported("construction of %s with arguments but no __init__" % ci.name)
+                return obj
             return self.opaque_call("new:" + ci.name, args, kwargs, st, node)
         return self.opaque_call(name, args, kwargs, st, node)
 
@@ -1720,6 +1781,8 @@ class Frame:
                 return True
         if self.I.inline_all_repo:
             return True
+        if self.I.prog.is_new_function(fi):
+            return True  # a helper newer than the rules: no specification can mention it
         if fi.module.name.endswith("utils.math"):
             return True
         if fi.cls is not None and self.cls is not None and fi.cls in self.I.prog.mro(self.cls) and fi.name not in self.I.opaque_self_methods:
